@@ -907,6 +907,18 @@ func ruleCompletionPaths(c *Ctx, a *cacheAnchors, want map[string]bool) {
 			if !isEmptySlice(L) {
 				report("completes-on-every-path", "returns with waiter list "+prettyTerm(L)+" not cleared on "+where)
 			}
+			// what is persisted is the final state: no state field is written after the record was saved
+			saveAt := -1
+			for i, e := range pr.Events {
+				if e.Kind == "call" && e.Callee == a.saveToStore && saveAt < 0 {
+					saveAt = i
+				}
+				if saveAt >= 0 && i > saveAt && e.Kind == "store" && e.Addr.Op == "fa" && e.Addr.Args[0].Key() == hc.Key() {
+					if fv, ok := e.Addr.Obj.(*types.Var); ok && (fv == a.fStatus || fv == a.fExpiredAt || fv == a.fCreatedAt || fv == a.fResponse) {
+						report("persist-final", "the entry's "+fv.Name()+" is written after the record was saved to the store: what is persisted is not the state the completion leaves (e.g. a marker saved as 'fetching' is thrown away on reload) on "+where)
+					}
+				}
+			}
 			// drain reached, lock discipline
 			locked, drained := false, false
 			for _, e := range pr.Events {
@@ -1009,7 +1021,7 @@ func ruleCompletionPaths(c *Ctx, a *cacheAnchors, want map[string]bool) {
 				}
 			}
 		}
-		for _, r := range []string{"completes-on-every-path", "locked", "expiry-value", "ttl-positive", "no-wrap", "stores-response"} {
+		for _, r := range []string{"completes-on-every-path", "locked", "expiry-value", "ttl-positive", "no-wrap", "stores-response", "persist-final"} {
 			if want != nil && !want[r] {
 				continue
 			}
